@@ -46,7 +46,7 @@ Progs(n, A, V) ==
 Plain == {"own", "none"}
 Variants == IF Tier = "quick" THEN {<<1, "full">>, <<2, "full">>, <<3, "full">>, <<4, "plain">>, <<1, "kidless">>, <<2, "kidless">>, <<3, "kidlessPlain">>,
                                     <<1, "sharedKid">>, <<2, "sharedKid">>}
-            ELSE {<<1, "full">>, <<2, "full">>, <<3, "full">>, <<4, "full">>, <<5, "plain">>, <<1, "kidless">>, <<2, "kidless">>, <<3, "kidless">>, <<4, "kidlessPlain">>,
+            ELSE {<<1, "full">>, <<2, "full">>, <<3, "full">>, <<4, "plain">>, <<5, "plain">>, <<1, "kidless">>, <<2, "kidless">>, <<3, "kidless">>,
                   <<1, "sharedKid">>, <<2, "sharedKid">>, <<3, "sharedKid">>}
 Groups == {<<i, v, sk>> \in (PubSetsN \cup PubSetsE) \X Variants \X BOOLEAN :
              /\ (v[2] \in {"full", "plain"} => (i \in PubSetsAB /\ ~sk))
